@@ -46,9 +46,10 @@ Theorem c15_map_loop_stops_at_rest : forall regex join_ok parse_expr parse_path 
 Proof. exact map_stops_at_rest. Qed.
 Print Assumptions c15_map_loop_stops_at_rest.
 
-(* in a set pattern exactly one comma may follow a leading `..` *)
+(* in a set pattern `..` is the rest marker only when it stands alone (`..5`, `..=5` are range patterns there as
+   everywhere else); exactly one comma may follow a leading marker *)
 Theorem c15_set_loop_stops_at_rest : forall regex join_ok parse_expr parse_path parse_closure f sc st,
-  toks st <> [] -> peek_punct ".." (toks st) = true ->
+  toks st <> [] -> peek_rest (toks st) = true ->
   exists left, (left = skipn 2 (toks st) \/ left = skipn 1 (skipn 2 (toks st))) /\
     p_set_elems regex join_ok parse_expr parse_path parse_closure (S f) sc st
     = POk ([], true) {| toks := left; ctr := ctr st; unx := unx st |}.
